@@ -67,6 +67,25 @@ def _calls_in_origins(orig):
     return [callee_path(o[2]) or "" for o in orig if o[0] == "call"]
 
 
+def _inc_by_empty_of_stored_tag(body, amount):
+    """`growth_left += special_is_empty(tag) as usize` where `tag` is one of the special constants this body stores into the slot:
+    the same as `if tag == EMPTY { growth_left += 1 }`"""
+    og = body.origins(amount)
+    calls = [callee_path(o[2]) or "" for o in og if o[0] == "call"]
+    if not any(c.endswith("Tag::special_is_empty") for c in calls):
+        return False
+    if any(not (c.endswith("Tag::special_is_empty") or c.startswith("core::convert::") or c.startswith("core::num::")) for c in calls):
+        return False
+    for o in og:
+        if o[0] == "call" and (callee_path(o[2]) or "").endswith("Tag::special_is_empty"):
+            for a in o[2]["args"]:
+                ao = body.origins(a)
+                cs = [x[1] for x in ao if x[0] == "const"]
+                if not cs or [x for x in ao if x[0] in ("call", "arg", "load")] or not all((c.get("val") or 0) >= 128 for c in cs):
+                    return False
+    return True
+
+
 def r_acct(F, V):
     R = Result("R-ACCT", F.cfg)
     n_inc = n_dec = n_gl_inc = 0
@@ -134,8 +153,25 @@ def r_acct(F, V):
                         if cs and all(c.get("t") == TAG_T and (c.get("val") or 0) >= 128 for c in cs) and not [o for o in body.origins(tg) if o[0] in ("call", "arg", "load")]:
                             if t.get("target") is not None and (body.dominates(t["target"], i) or t["target"] == i):
                                 ok = True
+                if not ok:
+                    # the count first, the control byte right after: sound as long as every path from here to a return passes
+                    # the special-tag store and no user code can run in between
+                    specials = []
+                    for j, t in body.calls():
+                        if (callee_path(t) or "").endswith("RawTableInner::set_ctrl") and len(t["args"]) >= 3:
+                            tg = t["args"][2]
+                            cs = [o[1] for o in body.origins(tg) if o[0] == "const"]
+                            if cs and all(c.get("t") == TAG_T and (c.get("val") or 0) >= 128 for c in cs) and not [o for o in body.origins(tg) if o[0] in ("call", "arg", "load")]:
+                                specials.append(j)
+                    if specials:
+                        open_ = set()
+                        for x in body.nsucc[i]:
+                            open_ |= body.reachable_from(x, tuple(specials))
+                        cbs = [j for (j, d_) in V.callback_sites(body) if j in open_]
+                        if i not in specials and not any(r in open_ for r in body.returns) and not cbs:
+                            ok = True
                 if ok:
-                    R.inst(key, "items -= 1 is dominated by set_ctrl(i, EMPTY|DELETED)", "ok", True, where(body, stmt=s))
+                    R.inst(key, "items -= 1 is paired with set_ctrl(i, EMPTY|DELETED) on every path (no user code in between)", "ok", True, where(body, stmt=s))
                 else:
                     R.violation(key, body, "`items -= 1` is not preceded on every path by a store of a special tag (EMPTY/DELETED) to the slot: the element stays marked FULL while no longer counted", line=line_of(body, stmt=s))
                     R.inst(key, "items -= 1 without clearing the control byte", "violation", True, where(body, stmt=s))
@@ -188,7 +224,11 @@ def r_acct(F, V):
                     R.inst(key, "%s copied from the other table only after the last loop" % fld, "ok", True, where(body, stmt=s))
         # ---- (e) whole-table clear shape
         fills = [j for j, t in body.calls() if (callee_path(t) or "").endswith("TagSliceExt::fill_empty") or (t["f"].get("trait") == "control::tag::TagSliceExt" and t["f"].get("method") == "fill_empty")]
-        if fills and items_st and gl_st and body.arg_count >= 1:
+        # (a body that refills control bytes after the fill - a clone that rebuilds the control array slot by slot - is not a clear:
+        # its counts are copied from the source, which is clause (d))
+        refill = [j for j, t in body.calls() if (callee_path(t) or "").endswith("RawTableInner::set_ctrl") or (callee_path(t) or "").endswith("RawTableInner::set_ctrl_hash")]
+        refill = [j for j in refill if any(j in _reach_after(body, f_) for f_ in fills)]
+        if fills and items_st and gl_st and body.arg_count >= 1 and not refill:
             key = "%s|clear-shape" % p
             bad = None
             for (i, k, s) in items_st:
@@ -212,7 +252,9 @@ def r_acct(F, V):
             known = gshape[0] in ("dec", "inc", "copy", "const") or (gshape[0] == "binop:Sub") or \
                 (gshape[0] == "other" and any(c.endswith("bucket_mask_to_capacity") for c in calls) and not [o for o in gorig if o[0] == "binop"])
             if gshape[0] == "inc" and not _is_const_one(gshape[1]):
-                known = False
+                known = _inc_by_empty_of_stored_tag(body, gshape[1])
+                if known:
+                    n_gl_inc += 1
             if not known:
                 R.violation("%s|growth_left-shape" % p, body, "growth_left is assigned a value of an unknown shape (%s; e.g. capacity + items): the free-room count no longer equals the number of EMPTY bytes "
                             "that may still be consumed, so the table can fill completely (probes never terminate) or refuse room it has" % gshape[0], line=line_of(body, stmt=gs))
